@@ -27,7 +27,7 @@ ASSUMPTIONS = [
     "twin = second parse of the same text, never operated on",
 ]
 OPS = ["nps", "nps", "nps", "subscript", "subscript", "subscript_get", "map_protocol", "bpm_protocol", "query", "query_bad",
-       "render", "compare", "hash", "derived", "copy", "track_reads", "copy_use", "ordering"]
+       "render", "compare", "hash", "derived", "copy", "track_reads", "copy_use", "ordering", "subscript_text"]
 
 
 def required(tier):
@@ -81,6 +81,16 @@ def do_op(chart, twin, name: str, rng) -> str:
         except KeyError:
             pass
         return "subscript:absent" if absent else "subscript:present"
+    if name == "subscript_text":
+        # what a caller might pass for "an instrument" besides the member: its value, its name, a section spelling, another enum's
+        # member, nonsense — the answer may be a KeyError (or a track map), the chart stays as it is
+        for key in (rng.choice(list(I)).value, rng.choice(list(I)).name, rng.choice(["Drums", "Single", "DoubleBass", "Keyboard", "drums", "GUITAR", "x", "", 0, None]),
+                    rng.choice(list(D))):
+            try:
+                chart[key]
+            except (KeyError, TypeError, ValueError, AttributeError):
+                pass
+        return "subscript_text"
     if name == "subscript_get":
         i, d = rng.choice(list(I)), rng.choice(list(D))
         try:
